@@ -608,6 +608,14 @@ V("c12-coe2eqe-longitude-args-swapped", "C12", "violation", "C12.R6", edits=[(OC
 V("c12-n-coe2eqe-reordered-sum", "C12", "pass", edits=[(OC, "    h = ecc * sin(argp + II * raan)\n    k = ecc * cos(argp + II * raan)", "    lon_peri = II * raan + argp\n    h = sin(lon_peri) * ecc\n    k = cos(lon_peri) * ecc")])
 V("c12-n-coe2eqe-half-angle", "C12", "pass", edits=[(OC, "    p = tan(inc * 0.5) ** II * sin(raan)\n    q = tan(inc * 0.5) ** II * cos(raan)", "    tan_half = tan(inc / 2) ** II\n    p = tan_half * sin(raan)\n    q = tan_half * cos(raan)")])
 
+# ------------------------------------------------------------------------------------ C18.R4 stacking (abstract weighted-mean evaluation)
+MSU = "estimation/adaptive/mmae_stacking_utils.py"
+_STK = "    pred_x = 0\n    est_x = 0\n    for model, weight in zip(models, model_weights):\n        pred_x += model.pred_x * weight\n        est_x += model.est_x * weight\n"
+V("c18-n-stack-vectorised-transpose", "C18", "pass", edits=[(MSU, _STK, "    pred_x = array([model.pred_x for model in models]).T.dot(model_weights)\n    est_x = array([model.est_x for model in models]).T.dot(model_weights)\n"), (MSU, "from __future__ import annotations\n", "from __future__ import annotations\n\nfrom numpy import array\n")])
+V("c18-n-stack-average", "C18", "pass", edits=[(MSU, _STK, "    pred_x = average([model.pred_x for model in models], axis=0, weights=model_weights)\n    est_x = average([model.est_x for model in models], axis=0, weights=model_weights)\n"), (MSU, "from __future__ import annotations\n", "from __future__ import annotations\n\nfrom numpy import average\n")])
+V("c18-stack-rows-times-weights", "C18", "violation", "C18.R4", edits=[(MSU, _STK, "    pred_x = array([model.pred_x for model in models]).dot(model_weights)\n    est_x = array([model.est_x for model in models]).T.dot(model_weights)\n"), (MSU, "from __future__ import annotations\n", "from __future__ import annotations\n\nfrom numpy import array\n")])
+V("c18-stack-slots-swapped", "C18", "violation", "C18.R4", edits=[(MSU, "        pred_x += model.pred_x * weight\n        est_x += model.est_x * weight\n", "        pred_x += model.est_x * weight\n        est_x += model.pred_x * weight\n")])
+
 # ------------------------------------------------------------------------------------ memo soundness / cache coherence
 RED = "physics/transforms/reductions.py"
 _RED_OLD = "        if not eops:\n            eops = getEarthOrientationParameters(utc_date.date())\n\n        polar_motion = PolarMotion(eops.x_p, eops.y_p)\n        prec_nut = PrecessionNutation(\n            utc_date,"
